@@ -11174,3 +11174,17 @@ fn len_u32(len: usize) -> u32 {
         Err(_) => u32::MAX,
     }
 }
+
+/// Verification-only access to the private segment reader (feature `echo_verif`).
+#[cfg(feature = "echo_verif")]
+#[allow(clippy::type_complexity)]
+pub(crate) fn verif_read_segment(bytes: &[u8]) -> Result<(Vec<u64>, Vec<Hash>, bool), ()> {
+    match read_segment_bytes(bytes) {
+        Ok((frames, commits, torn)) => Ok((
+            frames.iter().map(|f| f.header.lsn.as_u64()).collect(),
+            commits.iter().map(|c| c.transaction_id.as_hash()).collect(),
+            torn,
+        )),
+        Err(_) => Err(()),
+    }
+}
